@@ -382,6 +382,10 @@ impl Prioritize {
         let _res = self.flow.assign_capacity(inc);
         debug_assert!(_res.is_ok());
 
+        // When called with a `Ptr` as the resolver, this is the stream the
+        // caller is in the middle of operating on.
+        let current = store.current_key();
+
         // Assign newly acquired capacity to streams pending capacity.
         while self.flow.available() > 0 {
             let stream = match self.pending_capacity.pop(store) {
@@ -391,9 +395,19 @@ impl Prioritize {
 
             // Streams pending capacity may have been reset before capacity
             // became available. In that case, the stream won't want any
-            // capacity, and so we shouldn't "transition" on it, but just evict
-            // it and continue the loop.
+            // capacity, so just evict it and continue the loop.
+            //
+            // Sitting in `pending_capacity` may have been the only thing
+            // that kept an already closed, unreferenced stream from being
+            // released, and nothing else will look at it again, so give
+            // `transition_after` a chance to release it now. The exception
+            // is the stream the caller is currently operating on: the caller
+            // still holds a `Ptr` to it (which must not be invalidated) and
+            // will run the transition itself.
             if !(stream.state.is_send_streaming() || stream.buffered_send_data > 0) {
+                if current != Some(stream.key()) {
+                    counts.transition(stream, |_, _| {});
+                }
                 continue;
             }
 
